@@ -160,3 +160,43 @@ Definition heap_x86_case (i r : sexp) : verdict :=
   | _ => VBad "input shape"
   end.
 Definition run_heap_x86 : string -> string := run_cases heap_x86_case.
+
+(* ---------- C10: space independent of the number of repetitions ----------
+   `main(n)` builds and drops a structure n times; the allocation frontier after n = 8 and after
+   n = 32 iterations must coincide (and the heap invariant must hold at every boundary). *)
+Definition c10_x86_case (i r : sexp) : verdict :=
+  match i with
+  | L [Q _; p; lc; argss] =>
+      match g_prog p, getL (getL getZ) argss, r with
+      | Some p, Some argss, L [cs; _] =>
+          match g_xcodes_s cs with
+          | Some cs_s =>
+              let runs := map (fun args =>
+                                 let ref := run_linear lin_fuel p args in
+                                 let tr := trace_linear lin_fuel p args in
+                                 let '(ob, _, st) := run_x86_heap_tr x86_outer x86_inner cs_s args tr in
+                                 (args, ref, ob, st)) argss in
+              match find (fun x => let '(_, ref, ob, st) := x in negb (obs_eqb ref ob && defined ref)) runs with
+              | Some (args, ref, ob, _) =>
+                  VSkip ("runs not comparable for args " ++ show (sL sZ args) ++ ": " ++ show (s_obs ref) ++ " vs " ++ show (s_obs ob))
+              | None =>
+                  match find (fun x => let '(_, _, _, st) := x in match first_violation st with Some _ => true | None => false end) runs with
+                  | Some (args, _, _, st) =>
+                      VViol ("class=heap-invariant args=" ++ show (sL sZ args) ++ ": " ++ match first_violation st with Some w => w | None => "" end)
+                  | None =>
+                      let fronts := map (fun x => let '(_, _, _, st) := x in (last_frontier st - HEAP_BASE) / 64) runs in
+                      match fronts with
+                      | [f2; f8; f32] =>
+                          if Z.eqb f8 f32 then VOk ("nt frontier" ++ z_to_string f32 ++ " first" ++ z_to_string f2)
+                          else VViol ("class=heap-footprint-grows frontier after 2/8/32 iterations: " ++ z_to_string f2 ++ "/" ++ z_to_string f8 ++ "/" ++ z_to_string f32 ++ " blocks")
+                      | _ => VBad "expected three iteration counts"
+                      end
+                  end
+              end
+          | None => VBad "rust output unreadable"
+          end
+      | _, _, _ => VBad "input unreadable"
+      end
+  | _ => VBad "input shape"
+  end.
+Definition run_c10_x86 : string -> string := run_cases c10_x86_case.
